@@ -109,7 +109,7 @@ PROPS = {
         'trusted': [STEP, 'dumped store states are read back through Sst::cursor / MemTable::cursor of the implementation'],
         'assumptions': [STEP, 'externally ingested SSTs with timestamps interleaved with existing data are outside the property (DESIGN C01)',
                         'a batch naming one key twice aborts the store (D-16) and is generated in its own stream only'],
-        'partial': ['selector: closedness of the chosen compaction and invariants I1/I2 are *checked on every reached state* by the model driver (decidable checks proved sound: closed_check_sound, read_returns_latest), not proved for the selector as a function; expand_compaction (D-8) and recover (D-9) are known not to preserve them in general'],
+        'partial': ['selector: the three ways the selector builds a compaction are proved closed from what their loops establish (selector_slices_closed from Selection.Ok, trivial_move_closed, expansion_closed from Expansion.Ok — the latter two for the code as repaired, with the as-was counterexamples trivial_move_unrepaired_open / expansion_unrepaired_open); that the Rust loops establish Selection.Ok / Expansion.Ok is not proved: closedness of every chosen compaction and the invariants I1/I2 are instead *checked on every reached state* by the model driver (decidable checks proved sound: closed_check_sound, read_returns_latest)', 'recover (level reassignment on reopen) does not preserve I1/I2: known finding D-9'],
         'level_text': 'Theorem read_returns_latest: on every store state passing the decidable check invB (I1: levels sorted; I2: newer-above) KeyValueStore::load returns exactly the visible version of the union of all components; step theorems: ingest, every closed compaction with any outputs/cut points/GC drops, trivial moves preserve I2 and (without drops) every read at every timestamp. The model kvsLoad/invB/closedB is run on every state the real store reaches in seeded single-stepped histories and compared with the real reads; the oracle compares reads with a sequential map.',
         'level_note': 'Trusted: Lean kernel; axioms propext, Classical.choice, Quot.sound; single-step hooks; state dumps via the implementation\'s own cursors. Invariants of reached states and closedness of chosen compactions are run-time checked, not proved for the selector. Known finding D-9 (recover).',
     },
